@@ -109,7 +109,7 @@ def run_cascade(base, fmt, start, par, filt, via, spec, log, captured=None):
         fn = lambda: cascade_images(pio, start, averaging_merger, parallel=par, tile_filter=filt)
     if par > 1:
         instr_mp.install(spec.get("profile", "natural"), spec["seed"])
-        outcome, info = models.run_stage(fn, log, "walk", watchdog=200)
+        outcome, info = models.run_stage(fn, log, "walk", watchdog=200, hostile=dict(seed=spec["seed"], p=0.03, files=("pyramid.py", "par_util.py", "merge.py"), lo=0.001, hi=0.06, budget=1.0) if spec["seed"] % 4 == 0 else None)
     else:
         instr_mp.install("natural", spec["seed"])
         evlog.ev("stage_call")
@@ -277,6 +277,7 @@ def case_cascade(spec, workdir):
             probs.append(("serial-parallel-tileset", "tile sets differ: %s" % sorted(ta ^ tb)[:6]))
     counters = collections.Counter(stats)
     counters["pyramids"] += 1
+    counters["statement_delays"] = sum(1 for r in recs2 if r["k"] == "sched") if spec["par"] > 1 else 0
     counters["pair_%s_%s" % (fmt, mode)] += 1
     counters["leaves_entirely_undefined"] += n_undef
     counters["filter_%s" % spec["filt"]] += 1
